@@ -1343,7 +1343,6 @@ def malformed_cases():
         ("braces-around-scalar-twice", "int x = {{1}};", "0 i6.4.1 {{n1.1.0.0}}"),
         ("empty-braces-unknown-size", "int a[] = {};", "1 A0(i6.4.1) {}"),
         ("incomplete-struct", "struct S; struct S x = {1};", None),
-        ("vla", "void f(int n) { int a[n] = {1}; }", None),
         ("pointer-to-int-member", "struct {int a;} s = {\"abc\"};", None),
     ], [
         # boundary that must be ACCEPTED: 31 designators / 31 braces use obj[31]
